@@ -25,6 +25,18 @@ func genC09(rng *rand.Rand, seed uint64, tier string) *Script {
 	g.NoInflation = true
 	s := &Script{Prop: "C09", Seed: seed, Gen: g, Extra: map[string]string{}}
 	ops := []Op{{K: "block", Dt: 5}}
+	s.Gen.VotingPeriodS = 300
+	if g.MaxGas < 0 || g.MaxGas >= 1_000_000 {
+		// run-time parameter changes: a real governance proposal rewrites base fee and minimum gas price
+		if rng.IntN(2) == 0 {
+			ops = append(ops, Op{K: "msg", W: 1, Mut: "gov_feemarket_params", Val: pick(rng, "b", "b/2", "1", "0", "b*3"), Tip: pick(rng, "0", "1", "5000000000", "0.5", "123456789.5", "1000000000000"), Gas: "900000", Price: "b*2"})
+			ops = append(ops, Op{K: "block", Dt: 5})
+			for v := 0; v < g.Validators; v++ {
+				ops = append(ops, Op{K: "msg", W: 1000 + v, Mut: "gov_vote", Ref: 1, Price: "b*2"})
+			}
+			ops = append(ops, Op{K: "block", Dt: 5}, Op{K: "jump", Dt: 400}, Op{K: "block", Dt: 5}, Op{K: "block", Dt: 5})
+		}
+	}
 	nb := 4 + rng.IntN(10)
 	for b := 0; b < nb; b++ {
 		// fill level: 0 .. many transfers / heavy calls
